@@ -193,6 +193,26 @@ func checkC14(c *Ctx) {
 					if o, _, ok := c.findRel(t, "fld:"+w.Key+".wroteHeader", "", 0, i); !ok || !(o.Lo == 0 && o.Hi == 0) {
 						return "413 is sent without checking that the header is still unsent"
 					}
+					// … and it has to reach the client: the Write that follows fails, on which the reverse
+					// proxy (the end of every chain) aborts the connection with http.ErrAbortHandler and
+					// net/http discards whatever header it had only buffered
+					flushed := false
+					for _, later := range t.Items[i+1:] {
+						if later.Label == "emb:Flush" {
+							flushed = true
+						}
+						// (a writer that is no http.Flusher has nothing to flush)
+						if ifi, isIf := later.Instr.(*ssa.If); isIf && !later.Pol {
+							if ex, isEx := ifi.Cond.(*ssa.Extract); isEx && ex.Index == 1 {
+								if ta, isTA := ex.Tuple.(*ssa.TypeAssert); isTA && ta.AssertedType.String() == "net/http.Flusher" {
+									flushed = true
+								}
+							}
+						}
+					}
+					if !flushed {
+						return "the 413 is written but not flushed: behind the reverse proxy the failed Write aborts the connection and the buffered status is thrown away — the client sees the connection close instead of 413"
+					}
 				}
 			}
 			return ""
@@ -443,12 +463,20 @@ func checkC15(c *Ctx) {
 					}
 					return "identity", ""
 				}
-				need := map[string]bool{"min-size": false, "content-type": false, "not-encoded": false, "not-streamed": false}
+				// "non-empty": an empty body (204, 304, the reply to a HEAD) is never compressed — zero bytes
+				// labelled gzip are not a gzip stream, and a HEAD reply would advertise the length of a
+				// compressed nothing instead of the resource's; min_size may be configured as 0
+				need := map[string]bool{"min-size": false, "content-type": false, "not-encoded": false, "not-streamed": false, "non-empty": false}
 				for _, it := range t.Items[ni:gi] {
 					if _, isIf := it.Instr.(*ssa.If); !isIf {
 						continue
 					}
 					r := c.condRel(it)
+					if strings.HasPrefix(r.X, "len(") && r.Y == "" && r.Pred == "" && !strings.Contains(r.X, "phi(") {
+						if r.Lo >= 1 || (r.Neq && r.Lo == 0 && r.Hi == 0) {
+							need["non-empty"] = true
+						}
+					}
 					if o, ok := r.Orient("len(", "fld:"+w.Key+".minSize"); ok && o.Pred == "" {
 						if strings.Contains(o.X, "phi(") || !strings.HasPrefix(o.X, "len(") {
 							// the quantity compared is the buffered length on some paths only (a declared
